@@ -196,12 +196,13 @@ class ProfmodExtractor:
                 list of dicts of all imports in the tree.
 
         Returns:
-            modnames_found_in_tree (Dict[int,str]):
+            modnames_found_in_tree (Dict[int,List[str]]):
                 dict of imports found
                     key (int):
                         index of import in AST
-                    value (str):
-                        alias (or name if no alias used) of import
+                    value (List[str]):
+                        aliases (or names if no alias used) bound by
+                        that import
         """
         modnames_found_in_tree = {}
         modname_added_list = []
@@ -214,7 +215,9 @@ class ProfmodExtractor:
                 continue
             name = module_dict['alias'] or modname
             modname_added_list.append(modname)
-            modnames_found_in_tree[module_dict['tree_index']] = name
+            # One statement can bind several names (`from foo import a, b`)
+            modnames_found_in_tree.setdefault(
+                module_dict['tree_index'], []).append(name)
         return modnames_found_in_tree
 
     def run(self):
